@@ -303,6 +303,10 @@ def equal(interp, a, b):
     if _strlike(a) and _strlike(b):
         if isinstance(a, SymStr) and isinstance(b, SymStr) and a == b:
             return True
+        if interp.policy is not None:
+            r = interp.policy.str_equal(interp, a, b)
+            if r is not PROCEED:
+                return r
         return interp.to_z3(a) == interp.to_z3(b)
     if (is_z3(a) or is_z3(b)) and not isinstance(a, (Opaque, SymStr)) and not isinstance(b, (Opaque, SymStr)):
         if _numlike(a) and _numlike(b):
@@ -634,6 +638,10 @@ def builtin_getattr(interp, args):
 
 def builtin_len(interp, v):
     ctx = interp.ctx
+    if interp.policy is not None and isinstance(v, (SymStr, Opaque)):
+        r = interp.policy.length(interp, v)
+        if r is not PROCEED:
+            return r
     if isinstance(v, Obj):
         d = ctx.data(v)
         if d.kind == 'list':
@@ -653,14 +661,14 @@ def builtin_len(interp, v):
             elif is_z3(p):
                 sym.append(z3.Length(p))
             else:
-                sym.append(opaque_len(p))
+                n = opaque_len(p)
+                ctx.assume(n >= 0)
+                sym.append(n)
         return z3.Sum([z3.IntVal(total)] + sym)
     if isinstance(v, Opaque):
-        if interp.policy is not None:
-            r = interp.policy.length(interp, v)
-            if r is not PROCEED:
-                return r
-        return opaque_len(v)
+        n = opaque_len(v)
+        ctx.assume(n >= 0)
+        return n
     raise Undecided('len of %r' % (v,))
 
 
